@@ -600,6 +600,19 @@ def mt_boundaries(prog, res):
                 flds.add(y["f"])
     res.check(not (flds & WORKER_WRITTEN) and "rsync" in flds, R, "sync-point-free-of-worker-state", s.loc,
               "rsync split point computed from input bytes and rsync state only (%d fields read)" % len(flds), "sync point reads worker state")
+    # a sync point that could not be flushed (job table full: ZSTDMT_createCompressionJob returns without creating the job) is
+    # re-detected from the internal buffer alone on the next call, before any new input is scanned
+    hits = []
+    for bid, cond, t, fl in s.branches():
+        c = strip_casts(s.resolve_x(cond))
+        if c is not None and c.get("k") == "bin" and c["op"] == "==" and any(y.get("k") == "bin" and y.get("op") == "&" for y in walk(c)) and "f:hitMask" in s.anchors(c, depth=2):
+            hits.append((bid, t))
+    zero_load = [(b, i) for b, i, x in s.events(lambda y: y.get("k") == "asg") if strip_casts(x["lhs"]).get("f") == "toLoad" and const_val(x["rhs"]) == 0]
+    rot = s.call_roots("ZSTD_rollingHash_rotate")
+    pre = [h for h in hits if zero_load and s.must_pass(via_edges={h}, targets=zero_load)]
+    okp = len(hits) >= 2 and bool(zero_load) and bool(pre) and bool(rot) and not any(s.must_pass(via_roots=rot, targets=[z]) for z in zero_load)
+    res.check(okp, R, "pending-sync-point-redetected", s.loc, "a hit on the hash of the buffered tail (before scanning new input) yields toLoad = 0, flush = 1",
+              "a sync point left pending because the job table was full is no longer re-detected: the job is cut later, so boundaries depend on how fast the caller drains output and on the worker count")
     g = prog.fn("ZSTDMT_compressStream_generic")
     # the decision to create a job: filled >= targetSectionSize, flush/end, or sync point; not on job completion state
     cj = g.call_roots("ZSTDMT_createCompressionJob")
@@ -619,7 +632,7 @@ def mt_boundaries(prog, res):
         ok = ok and not (fl2 & (WORKER_WRITTEN | {"nbWorkers"}))
     res.check(ok, R, "targetSectionSize-from-params", i.loc, "section size derives from jobSize / windowLog / overlap parameters, never from the worker count",
               "job section size depends on the number of workers or on worker state")
-    res.need(R, 5)
+    res.need(R, 6)
 
 
 def run(tier):
